@@ -186,11 +186,8 @@ func sliceRootOf(v ssa.Value) ssa.Value {
 func checkLoopCarriedStructs(c *Ctx, rule string, fnNames []string) {
 	p := c.P
 	n := 0
-	for _, name := range fnNames {
-		fn := wtxFn(c, rule, name)
-		if fn == nil {
-			continue
-		}
+	for _, fn := range wtxRegion(c, rule, fnNames) {
+		name := fn.Name()
 		loops := loopsOf(fn)
 		for _, b := range fn.Blocks {
 			for _, ins := range b.Instrs {
@@ -533,11 +530,8 @@ func checkSeekHeightNonNegative(c *Ctx, rule string) {
 func checkElementIndexFromOwnLoop(c *Ctx, rule string, fnNames []string) {
 	_ = c.P
 	n := 0
-	for _, fnn := range fnNames {
-		fn := wtxFn(c, rule, fnn)
-		if fn == nil {
-			continue
-		}
+	for _, fn := range wtxRegion(c, rule, fnNames) {
+		fnn := fn.Name()
 		loops := loopsOf(fn)
 		induction := func(v ssa.Value) *Loop {
 			v = stripConv(v)
